@@ -88,13 +88,13 @@ theorem readonly_target_refused_unchanged (g : Grid) (c : Cap) (path : List Nat)
 /-- relink out of the read-only directory `1` (reached through the writeable root by the read link `1`)
 into the writeable directory `4` named by its write cap: refused, nothing linked into `4`; the same
 request through the write link `2` moves the child -/
+def exRelink : Req :=
+  { meth := .post, t := .relink, name := some 5, toName := some 9, toDir := some (⟨4, .write⟩, []) }
+
 example :
-    serve true exGrid ⟨0, .write⟩ [1] { meth := .post, t := .relink, name := some 5, toName := some 9,
-        toDir := some (⟨4, .write⟩, []) } = (exGrid, .err .notWriteable) ∧
-    (serve true exGrid ⟨0, .write⟩ [2] { meth := .post, t := .relink, name := some 5, toName := some 9,
-        toDir := some (⟨4, .write⟩, []) }).2 = .ok () ∧
-    entriesOf (serve true exGrid ⟨0, .write⟩ [2] { meth := .post, t := .relink, name := some 5, toName := some 9,
-        toDir := some (⟨4, .write⟩, []) }).1 4 = [(9, ⟨3, false⟩)] := by decide
+    serve true exGrid ⟨0, .write⟩ [1] exRelink = (exGrid, .err .notWriteable) ∧
+    (serve true exGrid ⟨0, .write⟩ [2] exRelink).2 = .ok () ∧
+    entriesOf (serve true exGrid ⟨0, .write⟩ [2] exRelink).1 4 = [(9, ⟨3, false⟩)] := by decide
 
 /-- non-vacuity of the table: the same requests through the write-cap link `2` succeed and change the grid -/
 example :
